@@ -689,7 +689,7 @@ fn register_step(n: usize) {
 macro_rules! register_inst {
     ($name:ident, $n:expr) => {
         vharness! {
-            //@ props: C06
+            //@ props: C06 C08
             //@ env: VERIF_MVEC_CAP=1
             //@ tier: quick
             //@ functions: v3::shared::MqttShared::{wait_response, wait_publish_response, enable_streaming, check_streaming}, v3 Codec::encodev (real, through the IoRef model)
@@ -939,7 +939,7 @@ vharness! {
 }
 
 vharness! {
-    //@ props: C06 C05 C13 C14
+    //@ props: C06 C05 C13 C14 C08
     //@ env: VERIF_MVEC_CAP=1
     //@ tier: quick
     //@ expect: fail
@@ -960,3 +960,83 @@ vharness! {
         })
     }
 }
+
+// =============================================================================================
+// streamed PUBLISH gate (C08) 
+fn pub3(size: u32) -> codec::Publish {
+    codec::Publish {
+        dup: false,
+        retain: false,
+        qos: QoS::AtMostOnce,
+        topic: ntex_bytes::ByteString::from_static("t"),
+        packet_id: None,
+        payload_size: size,
+    }
+}
+fn chunk_of(n: usize) -> Bytes {
+    match n {
+        0 => Bytes::new(),
+        1 => Bytes::from_static(b"a"),
+        2 => Bytes::from_static(b"ab"),
+        _ => Bytes::from_static(b"abc"),
+    }
+}
+vharness! {
+    //@ props: C08
+    //@ env: VERIF_MVEC_CAP=1
+    //@ tier: quick
+    //@ stubs: yes
+    //@ functions: v3::shared::MqttShared::{encode_publish, encode_packet, encode_publish_payload, check_streaming, enable_streaming, is_streaming, force_close}, v3 Codec::encodev (REAL: Publish / PayloadChunk arms and its `encoding_payload` counter)
+    //@ bounds: a streamed QoS 0 PUBLISH with declared payload size 1..=3, first chunk absent; then up to two chunks of 0..=3 bytes each, with attempts to send another packet in between
+    //@ assumes: none
+    //@ mem: 24  timeout: 1500
+    //@ desc: while payload bytes are owed every other packet is refused (ExpectPayload) and writes nothing; chunks are written as long as they fit the declared size; a chunk that would exceed it writes nothing and aborts the connection; when exactly the declared size has been written other packets are accepted again; a chunk without a streamed PUBLISH is refused
+    fn sh3_streaming_gate() unwind(6) {
+        vio::with_io(move |io| {
+            let sh = new_shared(io);
+            // a chunk with nothing owed is refused
+            assert!(matches!(sh.encode_publish_payload(chunk_of(1)), Err(EncodeError::UnexpectedPayload)));
+            assert!(io.bytes_written() == 0);
+            let size = vk::any_u32();
+            vk::assume(size >= 1 && size <= 3);
+            let p = pub3(size);
+            assert!(sh.encode_publish(p, None).is_ok());
+            let hdr = io.bytes_written();
+            assert!(hdr > 0 && sh.is_streaming());
+            let mut owed = size;
+            let mut k = 0;
+            let mut aborted = false;
+            while k < 2 && owed > 0 && !aborted {
+                // nothing else may be interleaved
+                let q = pub3(0);
+                let before = io.bytes_written();
+                assert!(matches!(sh.encode_publish(q, None), Err(EncodeError::ExpectPayload)), "another PUBLISH accepted inside a streamed payload");
+                assert!(io.bytes_written() == before && io.torn() == 0);
+                let n = vk::any_len(3);
+                let r = sh.encode_publish_payload(chunk_of(n));
+                if n as u32 > owed {
+                    assert!(matches!(r, Err(EncodeError::OverPublishSize)));
+                    assert!(io.bytes_written() == before, "over-long chunk partly written");
+                    assert!(io.terminated(), "over-long payload: connection must be aborted, not continued");
+                    aborted = true;
+                } else {
+                    owed -= n as u32;
+                    assert!(r == Ok(owed > 0), "chunk accounting out of step with the declared size");
+                    assert!(io.bytes_written() == before + n);
+                    assert!(sh.is_streaming() == (owed > 0));
+                }
+                k += 1;
+            }
+            if owed == 0 {
+                // exactly the declared size is on the wire: the connection is usable again
+                assert!(io.bytes_written() == hdr + size as usize);
+                let q = pub3(0);
+                assert!(sh.encode_publish(q, None).is_ok(), "connection unusable after a completed streamed payload");
+            }
+            vcover!(owed == 0 && k == 2, "completed with two chunks");
+            vcover!(aborted, "aborted on an over-long chunk");
+            std::mem::forget(sh);
+        })
+    }
+}
+
